@@ -23,7 +23,7 @@ MUTANTS=[
  ('revert-hardlink-entries', '\t\tcase tar.TypeLink:', '\t\tcase tar.TypeFifo:'),
  ('revert-stale-extract-removal', '\tos.RemoveAll(tempExtractDir) // left behind by a process that was killed\n\tif err := downloadAndExtractArchive(url,', '\tif err := downloadAndExtractArchive(url,'),
  # reverts of F23, F24
- ('revert-unlink-before-create', '\t\t\tif fi, err := os.Lstat(target); err == nil && !fi.IsDir() {', '\t\t\tif fi, err := os.Lstat(target); false && !fi.IsDir() {'),
+ ('revert-unlink-before-create', '\t\t\tif fi, err := os.Lstat(target); err == nil && !fi.IsDir() {', '\t\t\tif fi, err := os.Lstat(target); err != nil && fi != nil && !fi.IsDir() {'),
  ('revert-tree-subdirectory', '\ttreeDir := filepath.Join(tempDir, "tree")', '\ttreeDir := tempDir'),
  ('no-temp-cleanup-before-use', '\ttempDir := destDir + ".temp"\n\tos.RemoveAll(tempDir)\n', '\ttempDir := destDir + ".temp"\n'),
 ]
